@@ -6,6 +6,8 @@
                     prints  Q <id> <one char per request>  where
                       1 = the extracted property [holds] is true of the implementation's response
                       0 = it is false (violation)
+                      k = it is false in the way of the known finding absent-event-no-status only
+                          (an event read whose answer lacks exactly the UnsupportedEvent status entries)
                       . = the implementation's response could not be parsed (harness error token)
 
    case line:  Q <id> <max_paths> <fabrics> <accessor> <nodes> <requests>   (see c06.rs);
@@ -232,6 +234,8 @@ let () =
         match String.index_opt line '\t' with
         | Some i -> (String.sub line 0 i, String.sub line (i + 1) (String.length line - i - 1))
         | None -> (line, "") in
+      let line_id = match String.split_on_char ' ' case_line with _ :: id :: _ -> id | _ -> "?" in
+      (try
       let fields = String.split_on_char ' ' case_line in
       let (fields, queue) = match fields with
         | ["Q"; a; b; c; d; e; f; evs] -> (["Q"; a; b; c; d; e; f], plist parse_qevent '&' evs)
@@ -325,9 +329,14 @@ let () =
                     end else begin
                       match toks with
                       | [Some t] ->
-                          if head.kind = "E" || head.kind = "S" then
-                            (if holds_events (head.kind = "S") who c0.cf_node c0.cf_fabs (paths_of head) queue (parse_resp t)
-                             then '1' else '0')
+                          if head.kind = "E" || head.kind = "S" then begin
+                            let resp = parse_resp t in
+                            let sub = (head.kind = "S") in
+                            if holds_events sub who c0.cf_node c0.cf_fabs (paths_of head) queue resp then '1'
+                            (* k: the property is violated in the way of the known finding absent-event-no-status only *)
+                            else if holds_events_known sub who c0.cf_node c0.cf_fabs (paths_of head) queue resp then 'k'
+                            else '0'
+                          end
                           else if holds max_paths who c0 (swl head) head.rq (parse_resp t) then '1' else '0'
                       | _ -> '.'
                     end
@@ -361,5 +370,11 @@ let () =
             Printf.printf "Q %s %s\n" id (String.concat " " outs)
           end
       | _ -> if line <> "" then failwith ("bad line: " ^ line)
+      with
+      | End_of_file -> raise End_of_file
+      | _ ->
+          (* an unexpected token anywhere in the line: the line gets no verdict / no model answer,
+             the check reports it as unparsed instead of dying *)
+          if line <> "" then Printf.printf "Q %s %s\n" line_id (if spec_mode then "?" else "Edriver"))
     done
   with End_of_file -> ()
